@@ -1,4 +1,10 @@
-"""C14 Sorted searches and PREVIOUS/NEXT/RANK agree with a linear scan -- structural clauses."""
+"""C14 Sorted searches and PREVIOUS/NEXT/RANK agree with a linear scan -- structural clauses.
+
+Reading the code: every rule function is evaluated through H.guarded_views -- on the source as
+written and on behaviour-preserving normal forms of it (see _h_C.py / _h_C_norm.py) -- and slots
+are filled by role (flow origins, guard atoms, return cases, conditions as boolean formulas),
+not by statement shape or local names.
+"""
 import ast
 from ..fn import World
 from ..index import AnalysisError, dotted
@@ -344,42 +350,7 @@ def _bounds(atoms, idx, seq):
   return lo, hi
 
 
-def _expr_atoms(fnode, expr):
-  """Atoms that hold when `expr` is evaluated: guards of its statement plus the tests of the
-  conditional expressions / comprehension filters it sits in."""
-  parents = {}
-  for n in ast.walk(fnode):
-    for ch in ast.iter_child_nodes(n):
-      parents[id(ch)] = n
-  atoms = []
-  cur = expr
-  stmt = None
-  while id(cur) in parents:
-    par = parents[id(cur)]
-    if isinstance(par, ast.IfExp):
-      if cur is par.body:
-        atoms += H.split_guard(par.test, True)
-      elif cur is par.orelse:
-        atoms += H.split_guard(par.test, False)
-    elif isinstance(par, ast.BoolOp) and isinstance(par.op, ast.And):
-      i = [k for k, v in enumerate(par.values) if v is cur][0]
-      for v in par.values[:i]:
-        atoms += H.split_guard(v, True)
-    elif isinstance(par, (ast.ListComp, ast.SetComp, ast.GeneratorExp, ast.DictComp)):
-      if not any(cur is g for g in par.generators):
-        for g in par.generators:
-          for t in g.ifs:
-            atoms += H.split_guard(t, True)
-    if isinstance(par, ast.stmt):
-      stmt = par
-      break
-    cur = par
-  if stmt is not None:
-    if isinstance(stmt, (ast.If, ast.While)) and cur is stmt.test:
-      atoms += H.guard_atoms(fnode, stmt)
-    else:
-      atoms += H.guard_atoms(fnode, stmt)
-  return atoms
+_expr_atoms = H.expr_atoms
 
 
 def r2_index_guard(run, w):
